@@ -27,6 +27,7 @@ import (
 	"verif/internal/cdrive"
 	"verif/internal/ev"
 	"verif/internal/interp"
+	"verif/internal/progen"
 )
 
 // paWitness is the replay witness of a part (a) violation.
@@ -138,7 +139,7 @@ func (s *paState) handle(worker int, progs []*cdrive.ProgInfo) {
 	var script cdrive.Script
 	expect := make([]int, len(b.Progs))
 	for i, pi := range b.Progs {
-		j := cdrive.EnumeratePlans(pi, s.maxLen, s.maxPlan, s.extend)
+		j := cdrive.EnumeratePlans(pi, s.maxLen, s.maxPlan, s.extend || pi.Family == "coro-extras")
 		pi.Release()
 		jobs[i] = j
 		script.Section(i, j.Body)
@@ -324,6 +325,58 @@ func paScratch() (string, bool) {
 	return d, true
 }
 
+// paExtras: hand-written coroutines (canonical progen layout) whose multi-byte
+// reads are OBSERVABLE (the value is stored into a field): the progen coro
+// family can observe a read_u16le? result only at its deeper (thorough) level.
+// Every read_uNN? width and endianness, alone and after a one-byte read (so that
+// the split lands at every interior offset), a local array and a counter carried
+// across suspensions in a loop, and a skip whose count comes from the stream.
+func paExtras() *cdrive.FlatFamily {
+	f := &cdrive.FlatFamily{FamName: "coro-extras"}
+	prog := func(vars []string, body ...string) string {
+		var sb strings.Builder
+		sb.WriteString("pub struct foo?(\nq : base.u64,\nf : base.u32,\na : array[4] base.u8,\n)\n\npub func foo.c?(dst: base.io_writer, src: base.io_reader) {\n")
+		for _, v := range vars {
+			sb.WriteString("var " + v + "\n")
+		}
+		for _, l := range body {
+			sb.WriteString(l + "\n")
+		}
+		sb.WriteString("}\n")
+		return sb.String()
+	}
+	reads := []struct{ meth, typ string }{
+		{"read_u16le", "u16"}, {"read_u16be", "u16"}, {"read_u16le_as_u32", "u32"}, {"read_u16be_as_u32", "u32"},
+		{"read_u24le_as_u32", "u32"}, {"read_u24be_as_u32", "u32"}, {"read_u32le", "u32"}, {"read_u32be", "u32"},
+		{"read_u32le_as_u64", "u64"}, {"read_u40be_as_u64", "u64"}, {"read_u48le_as_u64", "u64"}, {"read_u56be_as_u64", "u64"},
+		{"read_u64le", "u64"}, {"read_u64be", "u64"}, {"read_u8_as_u32", "u32"},
+	}
+	for _, r := range reads {
+		store := "this.q = u as base.u64"
+		if r.typ == "u64" {
+			store = "this.q = u"
+		}
+		f.Add(prog([]string{"u : base." + r.typ}, "u = args.src."+r.meth+"?()", store), map[string]string{"kind": r.meth})
+		f.Add(prog([]string{"u : base." + r.typ, "v : base.u8"}, "v = args.src.read_u8?()", "u = args.src."+r.meth+"?()", store, "args.dst.write_u8?(a: v)"),
+			map[string]string{"kind": "read_u8 then " + r.meth})
+	}
+	f.Add(prog([]string{"i : base.u32", "v : base.u8", "b : array[4] base.u8"},
+		"while i < 3 {", "v = args.src.read_u8?()", "b[i & 3] = v", "i += 1", "}", "this.a[0] = b[0]", "this.a[1] = b[1]", "this.a[2] = b[2]", "this.f = i"),
+		map[string]string{"kind": "local array and counter across suspensions"})
+	f.Add(prog([]string{"i : base.u32", "v : base.u8"},
+		"v = args.src.read_u8?()", "i = (v & 3) as base.u32", "args.src.skip_u32?(n: i)", "v = args.src.read_u8?()", "this.f = i", "args.dst.write_u8?(a: v)"),
+		map[string]string{"kind": "skip count from the stream"})
+	f.Add(prog([]string{"i : base.u32", "v : base.u8"},
+		"while i < 3 {", "v = args.src.read_u8?()", "args.dst.write_u8?(a: v)", "i += 1", "}", "this.f = i"),
+		map[string]string{"kind": "copy loop"})
+	// A local that is written on one branch only of an else-less `if` after a
+	// suspension and read afterwards (liveness must merge the implicit empty else).
+	f.Add(prog([]string{"i : base.u32", "v : base.u8"},
+		"v = args.src.read_u8?()", "i = ((v & 3) as base.u32) + 1", "yield? base.\"$short read\"", "if v < 2 {", "i = 7", "}", "this.f = i"),
+		map[string]string{"kind": "else-less if after a suspension"})
+	return f
+}
+
 // partA runs part (a) until the given time (a run that is cut short reports complete == false).
 func partA(r *ev.Run, until time.Time) partAResult {
 	scratch, mine := paScratch()
@@ -344,8 +397,9 @@ func partA(r *ev.Run, until time.Time) partAResult {
 	}
 	tools.Warm(s.configs...)
 	cut := atomic.Bool{}
-	cfg := cdrive.WalkConfig{Tier: r.Tier, BatchSize: 48, Families: []string{"coro", "calls", "io"},
-		Keep: func(p *interp.Prog) bool { return p.HasCoroutines() },
+	cfg := cdrive.WalkConfig{Tier: r.Tier, BatchSize: 48, Families: []string{"coro-extras", "coro", "calls", "io"},
+		Extra: map[string]progen.Family{"coro-extras": paExtras()},
+		Keep:  func(p *interp.Prog) bool { return p.HasCoroutines() },
 		Stop: func() bool {
 			if os.Getenv("VERIF_STOP_ON_VIOLATION") == "1" && r.NumViolations() > 0 {
 				cut.Store(true)
@@ -368,6 +422,9 @@ func partA(r *ev.Run, until time.Time) partAResult {
 	for _, p := range ws.Problems {
 		s.problem("%s", p)
 	}
+	if fc := ws.Families["coro-extras"]; fc != nil && (fc.Rejected > 0 || fc.Unsupported > 0) {
+		s.problem("%d hand-written coroutines of the coro-extras family are rejected by the checker (%d outside the interpreter's subset)", fc.Rejected, fc.Unsupported)
+	}
 	r.MergeHist("partA_suspensions_crossed_by_kind", s.susp)
 	r.MergeHist("partA_final_status_class", s.finals)
 	r.MergeHist("partA_plans_by_variation", s.variations)
@@ -389,7 +446,7 @@ func partA(r *ev.Run, until time.Time) partAResult {
 	return partAResult{
 		evals: s.evals.Load(), nontrivial: s.nontrivial.Load(), programs: s.programs.Load(),
 		complete: !cut.Load() && s.capped.Load() == 0,
-		rule: fmt.Sprintf("part (a), generated coroutines: every accepted program of the progen families coro / calls / io with a public coroutine x every plan of interp.CoroPlans(maxLen=%d, at most %d per program): source streams over {00,01,FF} up to maxLen bytes, every cut of the stream into chunks (plus a leading empty delivery), destination room granted as {64} or {0,1,1,..}, and across suspensions the caller re-passes the buffers as they are, compacts them, passes other scalar arguments or makes an interleaved public call; thorough adds (cdrive.ExtendPlans, extended=%v) all 4-byte streams over {01,FF} in every cut and 5..8-byte streams fed 1 byte at a time / in halves, room {64} and {1,1,..}; "+
+		rule: fmt.Sprintf("part (a), generated coroutines: every accepted program of the progen families coro / calls / io with a public coroutine x every plan of interp.CoroPlans(maxLen=%d, at most %d per program): source streams over {00,01,FF} up to maxLen bytes, every cut of the stream into chunks (plus a leading empty delivery), destination room granted as {64} or {0,1,1,..}, and across suspensions the caller re-passes the buffers as they are, compacts them, passes other scalar arguments or makes an interleaved public call; thorough - and quick for the hand-written coro-extras family - adds (cdrive.ExtendPlans, extended for all families=%v) all 4-byte streams over {01,FF} in every cut and 5..8-byte streams fed 1 byte at a time / in halves, room {64} and {1,1,..}; "+
 			"evaluations += plan results compared per C configuration; non-trivial += (program, plan) pairs with at least one suspension crossed whose compiled run equals the ideal run and the all-at-once run", s.maxLen, s.maxPlan, s.extend),
 		extra: map[string]any{"partA": map[string]any{
 			"programs": s.programs.Load(), "plans_run_on_c": s.plans.Load(), "coroutine_calls_in_the_interpreter": s.calls.Load(),
